@@ -287,6 +287,63 @@ func (w *World) reachableAvoiding(fn *ssa.Function, target *ssa.BasicBlock, allo
 	return false
 }
 
+// reachableAvoidingCond: like reachableAvoiding, but conditions that were computed as values are resolved first: when
+// the branch tests a phi (possibly negated) that sits in the branching block, the phi is replaced by the operand of the
+// edge the search arrived through — a constant operand prunes the infeasible successor, any other operand becomes the
+// condition `blocked` is asked about. `blocked(cond, truth)` says that taking the edge on which cond == truth is one
+// of the guarded ways (the search does not continue through it).
+func (w *World) reachableAvoidingCond(fn *ssa.Function, target *ssa.BasicBlock, blocked func(cond ssa.Value, truth bool) bool) bool {
+	type state struct{ b, pred *ssa.BasicBlock }
+	seen := map[state]bool{}
+	stack := []state{{fn.Blocks[0], nil}}
+	for len(stack) > 0 {
+		st := stack[len(stack)-1]
+		stack = stack[:len(stack)-1]
+		if seen[st] {
+			continue
+		}
+		seen[st] = true
+		b := st.b
+		if b == target {
+			return true
+		}
+		iff, isIf := b.Instrs[len(b.Instrs)-1].(*ssa.If)
+		for i, s := range b.Succs {
+			if isIf && len(b.Succs) == 2 {
+				cond := iff.Cond
+				truth := i == 0
+				for depth := 0; depth < 4; depth++ {
+					if u, ok := cond.(*ssa.UnOp); ok && u.Op == token.NOT {
+						cond, truth = u.X, !truth
+						continue
+					}
+					if ph, ok := cond.(*ssa.Phi); ok && ph.Block() == b && st.pred != nil {
+						for pi, p := range b.Preds {
+							if p == st.pred {
+								cond = ph.Edges[pi]
+							}
+						}
+						if _, still := cond.(*ssa.Phi); still {
+							break
+						}
+						continue
+					}
+					break
+				}
+				if cb, isC := constBool(cond); isC {
+					if cb != truth {
+						continue // infeasible successor on this way in
+					}
+				} else if blocked(cond, truth) {
+					continue
+				}
+			}
+			stack = append(stack, state{s, b})
+		}
+	}
+	return false
+}
+
 // constBytes: v is a []byte whose content is a known constant: []byte("lit") or a package-level
 // variable initialised with such a literal and never reassigned.
 func (w *World) constBytes(v ssa.Value) (string, bool) {
